@@ -6,7 +6,7 @@ import shutil
 import tempfile
 from pathlib import Path
 
-from ..core.runner import HarnessError
+from ..core.runner import HarnessError, guarded
 from ..ctext import poly as P
 from ..ctext.odetext import NotC, read_ode
 from . import odecommon as oc
@@ -357,7 +357,7 @@ def run(ctx):
     pc = cs[::step]
     npaths = 0
     with mp.get_context("fork").Pool(ctx.workers, maxtasksperchild=1) as pool:
-        for k, viols in pool.imap_unordered(run_paths, pc):
+        for k, viols in pool.imap_unordered(guarded(run_paths), pc):
             npaths += k
             ctx.absorb(viols)
     ctx.assumptions += [
